@@ -313,6 +313,15 @@ class Harness:
             raise ReplayImpossible(f'dict {name} with {n} entries too large to build concretely')
         return {key(i): val(i) for i in range(n)}
 
+    def declare_split(self, line, sep, fields):
+        """lemma about str.split used by the VC generator: `line` was built as sep.join(fields) and no field contains
+        sep (the caller has required that), hence line.split(sep) == fields"""
+        if self.symbolic:
+            if not hasattr(self.interp, 'known_splits'):
+                self.interp.known_splits = []
+            self.interp.known_splits.append((_s(line), sep, list(fields)))
+            self.trusted.append('lemma: sep.join(fields).split(sep) == fields for separator-free fields')
+
     def set_loop(self, qualname, ordinal, spec):
         if self.symbolic:
             self.interp.loops[(qualname, ordinal)] = spec
